@@ -101,6 +101,10 @@ def eval_expression(expr: str, context: dict) -> Any:
                     # Escape special characters
                     value = escape_special_string_characters(value, is_value=True)
 
+                    # The curly brackets of the value are text: we double them, such
+                    # that the un-doubling below leaves them as they are
+                    value = value.replace("{", "{{").replace("}", "}}")
+
                     inner_expression_values.append(value)
                 string_expression = re.sub(
                     expression_pattern,
